@@ -11,6 +11,11 @@
   Part (ii): the daemon life cycle as a transition system over schedules (Model/Lifecycle.lean = backend.go
   `RunDaemon`, oklog/run `Group.Run`, controller.go `Run`), fixed semantics (the code in /repo now) and old
   semantics (before commits 19c718c / 5c3af56). Proofs in Proofs/Lifecycle.lean.
+
+  Part (ii'): one controller on its own (`CRun`: the controller's moves and the cancellation of its context) —
+  the statement correspondence stream `lc` samples on the REAL `Run(ctx)` (go/harness/lifecycle.go vs
+  Driver/LifecycleStream.lean), proved for every stop point and every continuation, and shown to be the
+  per-controller slice of the daemon model of part (ii).
 -/
 import Fan2go.Proofs.Restore
 import Fan2go.Proofs.ThirdParty
@@ -143,6 +148,11 @@ theorem C03_lifecycle_no_crash (rpms : List Bool) (sched : List Choice) :
   let g := lrun_ginv sched (linit_ginv rpms)
   ⟨g.alive, g.open_⟩
 
+/-- the start-up of a controller that finds its data in the database, up to the control loop's `select`:
+    read the originals, start-up wait, load, second load + attach, 1 s head start -/
+def C03_toTicking (i : Nat) : List Choice :=
+  [.ctl i .advance, .ctl i .advance, .ctl i .advance, .ctl i .advance, .ctl i .advance]
+
 /-- The statement above is not vacuous: under the OLD semantics (interrupt closes the registered
     channel; actor panics on a `Run` error) `panicked` is reachable with a fan under manual control and
     not restored — (1) by a second signal during shutdown, (2) by another controller's start-up error. -/
@@ -151,23 +161,21 @@ theorem C03_old_semantics_crashes :
       ∃ c ∈ (lrun .old (linit rpms) sched).ctls, c.touched = true ∧ c.restored = false) ∧
     (∃ rpms sched, Choice.signal ∉ sched ∧ (lrun .old (linit rpms) sched).proc = .panicked ∧
       ∃ c ∈ (lrun .old (linit rpms) sched).ctls, c.touched = true ∧ c.restored = false) :=
-  ⟨⟨[true], [.ctl 0 .advance, .ctl 0 .advance, .ctl 0 .advance, .ctl 0 .tick,
-             .signal, .sigActor, .interrupt, .signal], by decide⟩,
-   ⟨[true, true], [.ctl 0 .advance, .ctl 0 .advance, .ctl 0 .advance, .ctl 0 .tick, .ctl 1 .fail],
-     by decide⟩⟩
+  ⟨⟨[true], C03_toTicking 0 ++ [.ctl 0 .tick, .signal, .sigActor, .interrupt, .signal], by decide⟩,
+   ⟨[true, true], C03_toTicking 0 ++ [.ctl 0 .tick, .ctl 1 .fail], by decide⟩⟩
 
 /-- the same two schedules under the fixed semantics end with the process exited and the fan restored -/
 example :
-    (lrun .fixed (linit [true]) [.ctl 0 .advance, .ctl 0 .advance, .ctl 0 .advance, .ctl 0 .tick,
+    (lrun .fixed (linit [true]) (C03_toTicking 0 ++ [.ctl 0 .tick,
         .signal, .sigActor, .interrupt, .signal, .signal,
-        .ctl 0 .seeCancel, .signal, .ctl 0 .advance, .ctl 0 .advance, .exit]).proc = .exited 0 ∧
-    (lrun .fixed (linit [true, true]) [.ctl 0 .advance, .ctl 0 .advance, .ctl 0 .advance, .ctl 0 .tick,
+        .ctl 0 .seeCancel, .signal, .ctl 0 .advance, .ctl 0 .advance, .exit])).proc = .exited 0 ∧
+    (lrun .fixed (linit [true, true]) (C03_toTicking 0 ++ [.ctl 0 .tick,
         .ctl 1 .fail, .interrupt, .sigActor, .ctl 0 .tick, .ctl 0 .seeCancel, .ctl 0 .advance,
-        .ctl 0 .advance, .exit]).proc = .exited 1 ∧
-    (lrun .fixed (linit [true, true]) [.ctl 0 .advance, .ctl 0 .advance, .ctl 0 .advance, .ctl 0 .tick,
+        .ctl 0 .advance, .exit])).proc = .exited 1 ∧
+    (lrun .fixed (linit [true, true]) (C03_toTicking 0 ++ [.ctl 0 .tick,
         .ctl 1 .fail, .interrupt, .sigActor, .ctl 0 .tick, .ctl 0 .seeCancel, .ctl 0 .advance,
-        .ctl 0 .advance, .exit]).ctls.map (fun c => (c.regulated, c.touched, c.restored)) =
-      [(true, true, true), (false, false, false)] := by
+        .ctl 0 .advance, .exit])).ctls.map (fun c => (c.regulated, c.touched, c.restored, c.regsRestored)) =
+      [(true, true, true, true), (false, false, false, false)] := by
   decide
 
 /-- C03 (ii). Whenever the process has exited — on any schedule — every controller's `Run` has returned
@@ -180,43 +188,65 @@ theorem C03_lifecycle_restores (rpms : List Bool) (sched : List Choice) (code : 
   have g := lrun_ginv sched (linit_ginv rpms)
   have hph := g.exited code h c hc
   have hi := g.ctls c hc
-  refine ⟨hph, fun hr => ?_⟩
-  simp [cinv, hph, hr] at hi
-  exact hi.1
+  exact ⟨hph, (cinv_exited hi hph).1⟩
 
 /-- C03 (ii), the same for "touched": a fan that this process has written to at all (also during the
-    initialisation sequence) is restored when the process has exited — except when `Run` returned
-    through the `postInitError` exit. -/
+    start-up analysis: PWM-map sweep, RPM-curve measurement) is restored when the process has exited, and
+    its registers show it: original non-manual mode, or PWM 255. No exception is left: the error returns
+    after the initialisation sequence restore too (commit c9f18fa). -/
 theorem C03_lifecycle_touched (rpms : List Bool) (sched : List Choice) (code : Nat)
     (h : (lrun .fixed (linit rpms) sched).proc = .exited code) :
     ∀ c ∈ (lrun .fixed (linit rpms) sched).ctls,
-      c.touched = true → c.restored = true ∨ c.reason = some .postInitError := by
+      c.touched = true → c.restored = true ∧ c.regsRestored = true := by
   intro c hc ht
   have g := lrun_ginv sched (linit_ginv rpms)
   have hph := g.exited code h c hc
   have hi := g.ctls c hc
-  simp [cinv, hph, ht] at hi
-  exact hi.2
+  obtain ⟨-, h2, h3, -, -⟩ := cinv_exited hi hph
+  exact ⟨h2 ht, h3 (h2 ht)⟩
 
-/-- C03 (ii), FINDING (see report): the exception is real. After a SUCCESSFUL initialisation sequence
-    (which puts the fan under manual control and sweeps it), an error of the second `LoadFanPwmData` or of
-    `AttachFanRpmCurveData` makes `Run` return without calling `restorePwmEnabled` (controller.go:164-172):
-    the process exits in an orderly way with the fan touched and not restored. -/
-theorem C03_lifecycle_init_gap :
-    ∃ rpms sched code, (lrun .fixed (linit rpms) sched).proc = .exited code ∧
-      ∃ c ∈ (lrun .fixed (linit rpms) sched).ctls, c.touched = true ∧ c.restored = false :=
-  ⟨[true], [.ctl 0 .advance, .ctl 0 .advance, .ctl 0 .needInit, .ctl 0 .advance, .ctl 0 .fail,
-            .interrupt, .sigActor, .exit], 1, by decide⟩
+/-- C03 (ii). The start-up gap is closed (this theorem replaces the former witness `C03_lifecycle_init_gap`,
+    which was true of the code before commit c9f18fa): a controller whose `Run` returned through the
+    `initFail` or the `postInitError` exit — `RunInitializationSequence`, the second `LoadFanPwmData` or
+    `AttachFanRpmCurveData` failed, possibly after the fan had been put under manual control and swept —
+    has called `restorePwmEnabled`, on every schedule; the only returns without a restore are `done`
+    (restored in the control loop) and `runError`, and `runError` leaves the fan untouched. -/
+theorem C03_lifecycle_init_gap_closed (rpms : List Bool) (sched : List Choice) :
+    ∀ c ∈ (lrun .fixed (linit rpms) sched).ctls, c.phase = .exited →
+      ((c.reason = some .initFail ∨ c.reason = some .postInitError) → c.restored = true ∧ c.regsRestored = true) ∧
+      (c.restored = false → c.reason = some .runError ∧ c.touched = false) := by
+  intro c hc hph
+  have hi := (lrun_ginv sched (linit_ginv rpms)).ctls c hc
+  obtain ⟨-, -, h3, h4, -⟩ := cinv_exited hi hph
+  refine ⟨fun hr => ?_, h4⟩
+  have : c.restored = true := by
+    cases hres : c.restored with
+    | true => rfl
+    | false => rcases hr with hr | hr <;> simp [(h4 hres).1] at hr
+  exact ⟨this, h3 this⟩
+
+/-- non-vacuity, the former gap schedule in today's vocabulary: no stored data, PWM-map sweep, no RPM
+    input, the second `LoadFanPwmData` fails — `Run` returns the error with the fan restored; exit status 1 -/
+example :
+    (lrun .fixed (linit [false]) [.ctl 0 .advance, .ctl 0 .advance, .ctl 0 .needInit, .ctl 0 .needSweep,
+        .ctl 0 (.write 255), .ctl 0 (.write 0), .ctl 0 .advance, .ctl 0 .fail,
+        .interrupt, .sigActor, .exit]).proc = .exited 1 ∧
+    (lrun .fixed (linit [false]) [.ctl 0 .advance, .ctl 0 .advance, .ctl 0 .needInit, .ctl 0 .needSweep,
+        .ctl 0 (.write 255), .ctl 0 (.write 0), .ctl 0 .advance, .ctl 0 .fail,
+        .interrupt, .sigActor, .exit]).ctls.map
+      (fun c => (c.reason, c.touched, c.restored, c.mode, c.pwm)) =
+      [(some .postInitError, true, true, 2, 0)] := by
+  decide
 
 /-- C03 (ii). Before the initialisation sequence / the control loop starts, the fan is untouched, on
     every schedule (signals during the start-up wait included). -/
 theorem C03_lifecycle_untouched_before_start (rpms : List Bool) (sched : List Choice) :
     ∀ c ∈ (lrun .fixed (linit rpms) sched).ctls,
-      c.phase = .readOrig ∨ c.phase = .startupWait ∨ c.phase = .loadOrInit →
+      c.phase = .readOrig ∨ c.phase = .startupWait ∨ c.phase = .loadOrInit ∨ c.phase = .initializing →
       c.touched = false ∧ c.restored = false := by
   intro c hc hph
   have hi := (lrun_ginv sched (linit_ginv rpms)).ctls c hc
-  rcases hph with h | h | h <;> simp [cinv, h] at hi <;> exact ⟨hi.1.1, hi.2⟩
+  rcases hph with h | h | h | h <;> simp [cinv, h] at hi <;> exact ⟨hi.1.1, hi.2⟩
 
 /-- C03 (ii), progress (enabledness). In any state with the process running and `ctx` cancelled, a
     controller in `ticking` can move to `restoring`; a controller in `restoring` can (always) call
@@ -227,11 +257,22 @@ theorem C03_lifecycle_progress (s : LState) (i : Nat) (c : CState) (hp : s.proc 
     (c.phase = .ticking →
       (lstep .fixed s (.ctl i .seeCancel)).ctls[i]? = some { c with phase := .restoring }) ∧
     (c.phase = .restoring →
-      (lstep .fixed s (.ctl i .advance)).ctls[i]? = some { c with phase := .joining, restored := true }) ∧
+      (lstep .fixed s (.ctl i .advance)).ctls[i]? = some { c.restore with phase := .joining } ∧
+      c.restore.restored = true) ∧
     (c.phase = .joining →
       (lstep .fixed s (.ctl i .advance)).ctls[i]? = some { c with phase := .exited, reason := some .done }) :=
-  ⟨fun h => (progress_ticking hp hcan hi h).1, fun h => (progress_restoring hp hi h).1,
+  ⟨fun h => (progress_ticking hp hcan hi h).1,
+   fun h => ⟨(progress_restoring hp hi h).1, (restore_regs c).2.1⟩,
    fun h => (progress_joining hp (.inl hcan) hi h).1⟩
+
+/-- C03 (ii), progress (no circling). Every enabled move of a controller either brings it strictly closer
+    to `exited` or is one more write of the start-up analysis / one more control cycle in the same phase;
+    and once `ctx` is cancelled a move of the first kind is enabled in every phase but `exited`. -/
+theorem C03_lifecycle_no_circling (b : Bool) (c c' : CState) (a : CAct) (ev : CEv)
+    (hs : cstep b c a = some (c', ev)) :
+    (rank c'.phase < rank c.phase ∨ (c'.phase = c.phase ∧ ((∃ v, a = .write v) ∨ (∃ v, a = .tick v)))) ∧
+    (c.phase ≠ .exited → ∃ a₁ c₁ ev₁, cstep true c a₁ = some (c₁, ev₁) ∧ rank c₁.phase < rank c.phase) :=
+  ⟨cstep_rank hs, cstep_progress c⟩
 
 /-- C03 (ii), progress (no deadlock, global form). From every reachable state in which the process is
     still running, one more signal suffices: there is a continuation of the schedule on which the process
@@ -250,12 +291,104 @@ theorem C03_lifecycle_can_exit (rpms : List Bool) (sched : List Choice)
 
 /-- non-vacuity of the progress statements: a reachable running state with `ctx` cancelled and
     controller 0 in `ticking`, controller 1 (no RPM input) still in its start-up wait. -/
-example : (lrun .fixed (linit [true, false]) [.ctl 0 .advance, .ctl 0 .advance, .ctl 0 .advance, .ctl 0 .tick,
-      .ctl 1 .advance, .signal, .sigActor, .interrupt]).proc = .running ∧
-    (lrun .fixed (linit [true, false]) [.ctl 0 .advance, .ctl 0 .advance, .ctl 0 .advance, .ctl 0 .tick,
-      .ctl 1 .advance, .signal, .sigActor, .interrupt]).cancelled = true ∧
-    (lrun .fixed (linit [true, false]) [.ctl 0 .advance, .ctl 0 .advance, .ctl 0 .advance, .ctl 0 .tick,
-      .ctl 1 .advance, .signal, .sigActor, .interrupt]).ctls.map (·.phase) = [.ticking, .startupWait] := by
+example : (lrun .fixed (linit [true, false]) (C03_toTicking 0 ++ [.ctl 0 .tick,
+      .ctl 1 .advance, .signal, .sigActor, .interrupt])).proc = .running ∧
+    (lrun .fixed (linit [true, false]) (C03_toTicking 0 ++ [.ctl 0 .tick,
+      .ctl 1 .advance, .signal, .sigActor, .interrupt])).cancelled = true ∧
+    (lrun .fixed (linit [true, false]) (C03_toTicking 0 ++ [.ctl 0 .tick,
+      .ctl 1 .advance, .signal, .sigActor, .interrupt])).ctls.map (·.phase) = [.ticking, .startupWait] := by
+  decide
+
+/-! ## Part (ii'): one controller, every stop point (the statement stream `lc` samples) -/
+
+/-- C03 (ii'). The single-controller slice of the life-cycle model in the vocabulary of correspondence stream
+    `lc` (`ret`, `touched`, `restored` = C03's predicate on the final registers, `evals`): for EVERY fan (with or
+    without RPM input / control mode, any original mode and PWM), EVERY schedule prefix `pre` — i.e. every stop
+    point: during the start-up wait, in the middle of a sweep, after it, mid-measurement, during the head
+    start, inside or between control cycles, after a failure — and EVERY continuation `post` after the
+    cancellation of the context:
+    * (safety) if `Run` has returned, the controller is in `exited` and `touched = 1 → restored = 1`; an
+      untouched fan's registers are as they were found; control cycles were only run (`evals > 0`) by a
+      controller that restored;
+    * (liveness) at most `rank ≤ 12` success-path moves (`drain`) make `Run` return, from wherever the
+      controller was when it was cancelled, whatever it did since — and then the same holds. -/
+theorem C03_every_stop_point_restores (hasRpm hasMode : Bool) (mode pwm : Int) (pre post : List CEvt) :
+    let s := crun (cinit hasRpm hasMode mode pwm) (pre ++ CEvt.cancel :: post)
+    (s.ret.isSome = true → s.c.phase = .exited ∧ (s.c.touched = true → s.c.regsRestored = true) ∧
+        (s.c.touched = false → s.c.mode = mode ∧ s.c.pwm = pwm) ∧
+        (0 < s.cycles → s.c.restored = true)) ∧
+    ((drain 12 s).ret.isSome = true ∧ (drain 12 s).c.phase = .exited ∧
+        ((drain 12 s).c.touched = true → (drain 12 s).c.regsRestored = true) ∧
+        ((drain 12 s).c.touched = false → (drain 12 s).c.mode = mode ∧ (drain 12 s).c.pwm = pwm)) := by
+  intro s
+  have hs : RInv mode pwm s := crun_rinv _ (cinit_rinv hasRpm hasMode mode pwm)
+  have key : ∀ t : CRun, RInv mode pwm t → t.c.phase = .exited →
+      (t.c.touched = true → t.c.regsRestored = true) ∧ (0 < t.cycles → t.c.restored = true) := by
+    intro t ht hph
+    obtain ⟨h1, h2, h3, -, -⟩ := cinv_exited ht.inv hph
+    exact ⟨fun h => h3 (h2 h), fun h => h1 (ht.cyc h)⟩
+  constructor
+  · intro hret
+    have hph := hs.ret.1 hret
+    exact ⟨hph, (key s hs hph).1, hs.untouched, (key s hs hph).2⟩
+  · have hcan : s.cancelled = true := by
+      show (crun _ (pre ++ CEvt.cancel :: post)).cancelled = true
+      rw [crun_append]
+      exact crun_cancelled post _ rfl
+    have hex := drain_exits 12 s hcan (rank_le _)
+    obtain ⟨es, hes⟩ := drain_eq_crun 12 s
+    have hd : RInv mode pwm (drain 12 s) := by rw [hes]; exact crun_rinv es hs
+    exact ⟨hd.ret.2 hex, hex, (key _ hd hex).1, hd.untouched⟩
+
+/-- … and without any cancellation at all the safety half holds as well (a controller that stops by itself:
+    stalled at maximum PWM, curve error, start-up error). -/
+theorem C03_every_return_restores (hasRpm hasMode : Bool) (mode pwm : Int) (es : List CEvt) :
+    let s := crun (cinit hasRpm hasMode mode pwm) es
+    s.ret.isSome = true → s.c.phase = .exited ∧ (s.c.touched = true → s.c.regsRestored = true) ∧
+      (s.ret = some true → s.c.regulated = false ∧ s.cycles = 0) := by
+  intro s hret
+  have hs : RInv mode pwm s := crun_rinv _ (cinit_rinv hasRpm hasMode mode pwm)
+  have hph := hs.ret.1 hret
+  obtain ⟨-, h2, h3, -, -⟩ := cinv_exited hs.inv hph
+  exact ⟨hph, fun h => h3 (h2 h), fun h => ⟨hs.err h, Nat.eq_zero_of_not_pos fun hc => by
+    have := hs.cyc hc; rw [hs.err h] at this; cases this⟩⟩
+
+/-- C03 (ii'). The single-controller run IS the per-controller slice of the daemon model: the daemon LTS with
+    that one controller, scheduled with the controller's moves as `.ctl 0 a` and every cancellation as "a signal
+    arrives, the signal actor takes it, the group interrupts" (`embed`), is at every moment in the state the
+    single-controller run is in (same controller state, same `ctx`), and is still running. Hence every theorem
+    of part (ii) about all schedules of the daemon speaks about the runs stream `lc` drives.
+    (`linit [b]` is this daemon for the default registers: `linit [b] = { ctls := [(cinit b true 2 0).c] }`.) -/
+theorem C03_slice_is_lts (hasRpm hasMode : Bool) (mode pwm : Int) (es : List CEvt) :
+    let L := lrun .fixed { ctls := [(cinit hasRpm hasMode mode pwm).c] } (embed es)
+    L.ctls = [(crun (cinit hasRpm hasMode mode pwm) es).c] ∧
+    L.cancelled = (crun (cinit hasRpm hasMode mode pwm) es).cancelled ∧ L.proc = .running :=
+  let h := sim_run es (sim_init (cinit hasRpm hasMode mode pwm).c)
+  ⟨h.ctls, h.canc, h.run⟩
+
+example (b : Bool) : linit [b] = { ctls := [(cinit b true 2 0).c] } := rfl
+
+/-- non-vacuity: a hwmon fan found in automatic mode (2) at PWM 90, no stored data; the context is cancelled in
+    the middle of the PWM-map sweep; the controller finishes sweep, measurement and head start, sees the
+    cancellation at its first `select`, restores, returns nil: touched, mode 2 again, PWM 90 again, no cycle. -/
+example :
+    let s := crun (cinit true true 2 90)
+      ([.act .advance, .act .advance, .act .needInit, .act .needSweep, .act (.write 255), .act (.write 254),
+        .cancel, .act (.write 253), .act (.write 0), .act (.write 60), .act .advance, .act (.write 0),
+        .act (.write 1), .act .advance, .act .advance, .act .advance, .act .seeCancel, .act .advance,
+        .act .advance])
+    s.ret = some false ∧ s.c.touched = true ∧ s.c.regsRestored = true ∧ s.c.mode = 2 ∧ s.c.pwm = 90 ∧
+      s.cycles = 0 := by
+  decide
+
+/-- non-vacuity: a file fan (no control mode) found at PWM 90, cancelled inside its second control cycle:
+    handed back at PWM 255 -/
+example :
+    let s := crun (cinit false false 0 90)
+      ([.act .advance, .act .advance, .act .advance, .act .advance, .act .advance, .act .tick, .cancel,
+        .act (.tick 140)] )
+    s.ret = none ∧ (drain 12 s).ret = some false ∧ (drain 12 s).c.pwm = 255 ∧ (drain 12 s).cycles = 2 ∧
+      (drain 12 s).c.regsRestored = true := by
   decide
 
 #print axioms C03_restore
@@ -269,9 +402,13 @@ example : (lrun .fixed (linit [true, false]) [.ctl 0 .advance, .ctl 0 .advance, 
 #print axioms C03_old_semantics_crashes
 #print axioms C03_lifecycle_restores
 #print axioms C03_lifecycle_touched
-#print axioms C03_lifecycle_init_gap
+#print axioms C03_lifecycle_init_gap_closed
 #print axioms C03_lifecycle_untouched_before_start
 #print axioms C03_lifecycle_progress
+#print axioms C03_lifecycle_no_circling
 #print axioms C03_lifecycle_can_exit
+#print axioms C03_every_stop_point_restores
+#print axioms C03_every_return_restores
+#print axioms C03_slice_is_lts
 
 end Fan2go
